@@ -299,28 +299,35 @@ def extRun (k : Kind) (c : Cfg) (sched : Sched) (code : Int) (frames : List Fram
     negates once more because `system.vel_rev = reverse`. -/
 def gmxVelSeen (rev : Bool) (v : Int) : Int := velSeen rev (if rev then -v else v)
 
-def gmxRecord (c : Cfg) (es : List Entry) (idx : Nat) (f : Frame) : Option (List Entry × AddResult) :=
-  let vs := gmxVelSeen c.rev f.vel
+/-- velocity handed to the order function by the GROMACS loop: as found (`asIs`, the two lines
+    gromacs.py:520-521 `if … reverse: system.vel *= -1` present) or repaired (lines deleted, /repo f551f52) -/
+def gmxVel (gv : Variant) (rev : Bool) (v : Int) : Int :=
+  match gv with
+  | .asIs => gmxVelSeen rev v
+  | .repaired => velSeen rev v
+
+def gmxRecord (gv : Variant) (c : Cfg) (es : List Entry) (idx : Nat) (f : Frame) : Option (List Entry × AddResult) :=
+  let vs := gmxVel gv c.rev f.vel
   let e : Entry := { idx := idx, cid := f.cid, bid := f.bid, vel := vs, order := c.ord f.cid f.bid vs }
   match addToPath (es.map (·.order)) (some c.maxlen) e.order c.left c.right with
   | none => none
   | some (_, r) => some (if r.added then es ++ [e] else es, r)
 
 /-- `for i, data in enumerate(gro.get_gromacs_frames()):` over the frames the runner yields -/
-def gmxGo (c : Cfg) : List Frame → Nat → List Entry → Bool → Option PStatus → Result
+def gmxGo (gv : Variant) (c : Cfg) : List Frame → Nat → List Entry → Bool → Option PStatus → Result
   | [], _, es, succ, st =>
     { es := es, success := succ, status := st, raised := none, killed := false, terminated := false, dead := true, multi := false, ticks := 0 }
   | f :: rest, i, es, succ, st =>
-    match gmxRecord c es i f with
+    match gmxRecord gv c es i f with
     | none => { es := es, success := succ, status := st, raised := some .index, killed := false, terminated := false, dead := true,
                 multi := false, ticks := 0 }
     | some (es', r) =>
       if r.stop then
         { es := es', success := r.success, status := some r.status, raised := none, killed := true, terminated := true, dead := true,
           multi := false, ticks := 0 }
-      else gmxGo c rest (i + 1) es' r.success (some r.status)
+      else gmxGo gv c rest (i + 1) es' r.success (some r.status)
 
-def gmxRun (c : Cfg) (frames : List Frame) : Result := gmxGo c frames 0 [] false none
+def gmxRun (gv : Variant) (c : Cfg) (frames : List Frame) : Result := gmxGo gv c frames 0 [] false none
 
 
 /-! ### GROMACS through `GromacsRunner` (gromacs.py:714-946), tick level
@@ -344,8 +351,8 @@ def gmxWait (sched : Sched) (code : Int) : Nat → XState → Option (XState × 
       else if code ≠ 0 then some (s, some .runtime) else some (s, none)
 
 /-- consumer side of one yielded frame: `add_to_path`, `break` on stop (then `__exit__` → `stop()`) -/
-def gmxConsume (c : Cfg) (s : XState) (f : Frame) : Option (XState × Bool) :=
-  match gmxRecord c s.es s.stepNr f with
+def gmxConsume (gv : Variant) (c : Cfg) (s : XState) (f : Frame) : Option (XState × Bool) :=
+  match gmxRecord gv c s.es s.stepNr f with
   | none => none
   | some (es', r) =>
     let s1 := { s with es := es', success := r.success, status := some r.status, rp := s.rp + 1 }
@@ -353,21 +360,21 @@ def gmxConsume (c : Cfg) (s : XState) (f : Frame) : Option (XState × Bool) :=
     else some ({ s1 with stepNr := s1.stepNr + 1 }, false)
 
 /-- `read_remaining_trr`: every complete frame still unread, in order, until the consumer stops -/
-def gmxDrain (c : Cfg) : List Frame → XState → XState × Option Err
+def gmxDrain (gv : Variant) (c : Cfg) : List Frame → XState → XState × Option Err
   | [], s => (s, none)
   | f :: rest, s =>
-    match gmxConsume c s f with
+    match gmxConsume gv c s f with
     | none => (s, some .index)
-    | some (s', stop) => if stop then (s', none) else gmxDrain c rest s'
+    | some (s', stop) => if stop then (s', none) else gmxDrain gv c rest s'
 
-def gmxFrames (c : Cfg) (sched : Sched) (code : Int) (need0 : Nat) (frames : List Frame) :
+def gmxFrames (gv : Variant) (c : Cfg) (sched : Sched) (code : Int) (need0 : Nat) (frames : List Frame) :
     Nat → XState → XState × Option Err
   | 0, s => (s, some .fuel)
   | fuel + 1, s =>
     let (s, alive) := poll sched s
     if !alive then
       if code ≠ 0 then (s, some .runtime)
-      else gmxDrain c ((frames.take s.cur.vis).drop s.rp) s
+      else gmxDrain gv c ((frames.take s.cur.vis).drop s.rp) s
     else
       let avail := (min s.cur.vis frames.length) - s.rp
       let need := if s.rp = 0 then need0 else 1
@@ -375,15 +382,15 @@ def gmxFrames (c : Cfg) (sched : Sched) (code : Int) (need0 : Nat) (frames : Lis
         match frames[s.rp]? with
         | none => (s, some .index)
         | some f =>
-          match gmxConsume c s f with
+          match gmxConsume gv c s f with
           | none => (s, some .index)
-          | some (s', stop) => if stop then (s', none) else gmxFrames c sched code need0 frames fuel s'
-      else gmxFrames c sched code need0 frames fuel (tick sched s)
+          | some (s', stop) => if stop then (s', none) else gmxFrames gv c sched code need0 frames fuel s'
+      else gmxFrames gv c sched code need0 frames fuel (tick sched s)
 
 /-- `with GromacsRunner(...) as gro: for i, data in enumerate(gro.get_gromacs_frames()): …` including
     `__exit__` → `stop()` (also on exceptions raised inside the block; an exception in `start()` leaves no
     process behind because it is only raised for a collected non-zero return code). -/
-def gmxExt (c : Cfg) (sched : Sched) (code : Int) (need0 : Nat) (frames : List Frame) (fuel : Nat) : Result :=
+def gmxExt (gv : Variant) (c : Cfg) (sched : Sched) (code : Int) (need0 : Nat) (frames : List Frame) (fuel : Nat) : Result :=
   match gmxWait sched code fuel XState.init with
   | none => XState.init.result (some .fuel)
   | some (s1, some e) => s1.result (some e)
@@ -396,7 +403,7 @@ def gmxExt (c : Cfg) (sched : Sched) (code : Int) (need0 : Nat) (frames : List F
       let p2 := s2.cur.file
       -- without both files `stop_read = True`: no frame is read, and `__exit__` → `stop()` → `close()` touches
       -- `self.fileh`, which `start()` never assigned → AttributeError (after mdrun has been stopped)
-      let (s3, e) := if p1 && p2 then gmxFrames c sched code need0 frames fuel s2 else (s2, some .attr)
+      let (s3, e) := if p1 && p2 then gmxFrames gv c sched code need0 frames fuel s2 else (s2, some .attr)
       -- `stop()`: SIGTERM iff no return code was collected (harmless if mdrun has just ended), then wait
       let s4 := { s3 with killed := !s3.dead && s3.cur.alive, dead := true }
       match e with
